@@ -317,6 +317,14 @@ func genSingle(seed uint64, prop string, k SingleKnobs) *Plan {
 					t = at
 					if ra.Bool(k.PFlap) {
 						ft := at + ra.Dur(time.Second, 40*time.Second)
+						if ra.Bool(0.3) {
+							// tight flap: the re-fire follows within milliseconds, and the worker
+							// that holds the resolve may be slower than the one holding the re-fire
+							ft = at + ra.Dur(2*time.Millisecond, 200*time.Millisecond)
+							if ra.Bool(0.6) {
+								p.Holds = append(p.Holds, Hold{Site: "dispatch.worker.recv", Match: fmt.Sprintf("%s@%d", labelsKey(ls), int64(at)), Delay: ra.Dur(300*time.Millisecond, 2*time.Second) + 3})
+							}
+						}
 						a := PAlert{Labels: ls}
 						if explicit {
 							e := x
